@@ -20,4 +20,13 @@ MCTarget6 == MCTarget2
 MCNoAtt == [d \in MCDevs |-> 0]
 \* topology balls3: the trough gives up after three failed attempts
 MCAtt3 == [d \in MCDevs |-> IF d = "bd_trough" THEN 3 ELSE 0]
+\* seventh: the launcher has a second target behind a diverter - the lock, which asks for balls itself (two hops from the
+\* trough); ejects towards a device can go astray (ball lost in transit); nothing can be shot into the lock
+MCCap7 == MCCap
+MCTarget7 == MCTarget
+MCNoAlt == [d \in MCDevs |-> {}]
+MCAlt7 == [d \in MCDevs |-> IF d = "bd_plunger" THEN {"bd_lock"} ELSE {}]
+\* eighth: the fifth topology (game, ball save, multiball) with the lock as a ball_locks device of the multiball
+MCCap8 == MCCap
+MCTarget8 == MCTarget
 =============================================================================
